@@ -204,7 +204,7 @@ def accessor_cases(exe, tier):
     Returns dict(ok, cases, skipped, failed)."""
     d = _dir()
     out = os.path.join(d, "accessors.json")
-    extra = 150 if tier == "quick" else 1500
+    extra = 80 if tier == "quick" else 1500
     rc, log = common.run([exe, "accessors", "-out", out, "-seed", str(common.seed()), "-extra", str(extra)], timeout=300)
     if rc != 0 or not os.path.exists(out):
         return dict(ok=False, cases=0, skipped=0, failed="the harness could not run the accessors:\n" + log[-2000:])
@@ -438,6 +438,7 @@ def main(tier, replay):
     # 1. translator, 2. Coq obligations: under one lock, in the background,
     # while the harness is built and run
     coq, invbox, gen_done = {}, {}, threading.Event()
+    accbox, exe_ready = {}, threading.Event()
 
     def gen_and_prove():
         with common.Lock("c04-inventory"):
@@ -452,6 +453,14 @@ def main(tier, replay):
                 coq.update(common.coq_props(PID, extra_files=EXTRA_COQ))
             except Exception as e:          # noqa: BLE001
                 coq.update(ok=False, failed="coq_props raised: %r" % e, obligations=[], discharged=[], assumptions={}, axioms=[])
+        # accessor correspondence: right after the obligations, still in the
+        # background (it needs the harness binary, built by the main thread)
+        exe_ready.wait()
+        if accbox.get("exe"):
+            try:
+                accbox["acc"] = accessor_cases(accbox["exe"], tier)
+            except Exception as e:          # noqa: BLE001
+                accbox["acc"] = dict(ok=False, cases=0, skipped=0, failed="accessor_cases raised: %r" % e)
 
     th = threading.Thread(target=gen_and_prove)
     th.start()
@@ -470,6 +479,8 @@ def main(tier, replay):
     unsafe = [sites[i] for i in inv["unsafe_client_sites"]]
 
     exe, blog = common.go_build("./cmd/c04drive")
+    accbox["exe"] = exe
+    exe_ready.set()
     if exe is None:
         th.join()
         raise RuntimeError("cannot build the harness against %s:\n%s" % (common.REPO, blog[-3000:]))
@@ -530,7 +541,7 @@ def main(tier, replay):
 
     # 3. accessor correspondence (needs the Coq lock: after the obligations)
     th.join()
-    acc = accessor_cases(exe, tier)
+    acc = accbox.get("acc") or dict(ok=False, cases=0, skipped=0, failed="accessor correspondence did not run")
 
     # thorough: the compiled theorems are re-checked by the independent checker
     coqchk_note = "not run (quick tier)"
